@@ -43,10 +43,12 @@ def dump_ast(repo, workdir):
 
 def load_toplevel(path):
     """Split the (500 MB) dump at top-level declarations and json-parse only
-    those outside the standard-library namespaces."""
-    s = open(path).read()
-    pat = "\n    {\n"
-    pos = s.find('\n  "inner": [\n')
+    those outside the standard-library namespaces.  Works on bytes (no decoding
+    of the parts that are thrown away)."""
+    with open(path, "rb") as f:
+        s = f.read()
+    pat = b"\n    {\n"
+    pos = s.find(b'\n  "inner": [\n')
     starts = []
     while True:
         j = s.find(pat, pos)
@@ -54,17 +56,20 @@ def load_toplevel(path):
             break
         starts.append(j + 1)
         pos = j + len(pat)
-    ends = starts[1:] + [s.rfind("\n  ]")]
+    ends = starts[1:] + [s.rfind(b"\n  ]")]
     keep = []
+    rk = re.compile(rb'\n      "kind": "(\w+)"')
+    rn = re.compile(rb'\n      "name": "([^"]*)"')
+    skip = tuple(x.encode() for x in SKIP_NS)
     for a, b in zip(starts, ends):
         head = s[a:a + 3000]
-        k = re.search(r'\n      "kind": "(\w+)"', head)
-        m = re.search(r'\n      "name": "([^"]*)"', head)
-        if k and k.group(1) == "NamespaceDecl" and m and m.group(1) in SKIP_NS:
+        k = rk.search(head)
+        m = rn.search(head)
+        if k and k.group(1) == b"NamespaceDecl" and m and m.group(1) in skip:
             continue
-        if s.find("anifold", a, b) < 0:
+        if s.find(b"anifold", a, b) < 0:
             continue                      # C library / compiler builtins: nothing of the binding in there
-        keep.append(json.loads(s[a:b].rstrip().rstrip(",")))
+        keep.append(json.loads(s[a:b].rstrip().rstrip(b",")))
     return keep
 
 
